@@ -26,16 +26,7 @@ RUNS = {
     "C05": {"quick": 10000, "thorough": 160000},
 }
 
-RULES = {
-    "W-FSA": ("One evaluation = one simulated run: a seeded history of 6-60 operations issued by 2-4 "
-              "logical callers on up to 6 automata (construct by six routes incl. loads through the "
-              "simulated disk, mutate, derive, query, rejected ops, disk faults), every invariant "
-              "checked on every live handle after every step.  A run is non-trivial if at least one "
-              "mutating operation was applied to a handle while a related handle (parent, child, "
-              "same source dict, same file, sibling) was alive and then re-checked.  Distinct = distinct "
-              "hash of the sequence of (operation kind, relation of the touched handle to the "
-              "previously touched one)."),
-}
+RULES = {}
 
 
 def load_engine_factory(prop):
